@@ -9,6 +9,7 @@ import (
 
 	"github.com/foxglove/mcap/go/mcap"
 	"verif/sim/internal/refmcap"
+	"verif/sim/internal/scen"
 )
 
 // Simulated caller-supplied codecs. Each has a compressor
@@ -145,7 +146,7 @@ func (n *nonceR) Reset(r io.Reader) error { n.r = r; n.got = false; return nil }
 func Compressor(name string) mcap.CustomCompressor {
 	var w mcap.ResettableWriteCloser
 	switch name {
-	case "xor":
+	case "xor", "xorlong":
 		w = &xorW{}
 	case "flate":
 		w = newFlateW()
@@ -156,16 +157,17 @@ func Compressor(name string) mcap.CustomCompressor {
 	default:
 		panic("unknown custom codec " + name)
 	}
-	return mcap.NewCustomCompressor(mcap.CompressionFormat("x-"+name), w)
+	return mcap.NewCustomCompressor(mcap.CompressionFormat(scen.CustomFormat(name)), w)
 }
 
 // Decompressors returns lexer decompressors for all custom codecs.
 func Decompressors() map[mcap.CompressionFormat]mcap.ResettableReader {
 	return map[mcap.CompressionFormat]mcap.ResettableReader{
-		"x-xor":   &xorR{},
-		"x-flate": &flateR{},
-		"x-nonce": &nonceR{},
-		"x-eager": &nonceR{},
+		"x-xor":                  &xorR{},
+		"x-xor-with-a-long-name": &xorR{},
+		"x-flate":                &flateR{},
+		"x-nonce":                &nonceR{},
+		"x-eager":                &nonceR{},
 	}
 }
 
@@ -181,14 +183,16 @@ func RefDecompressors() map[string]refmcap.Decompressor {
 		}
 		return out, nil
 	}
+	xor := func(stored []byte, _ uint64) ([]byte, error) {
+		out := make([]byte, len(stored))
+		for i, b := range stored {
+			out[i] = b ^ 0x5a
+		}
+		return out, nil
+	}
 	return map[string]refmcap.Decompressor{
-		"x-xor": func(stored []byte, _ uint64) ([]byte, error) {
-			out := make([]byte, len(stored))
-			for i, b := range stored {
-				out[i] = b ^ 0x5a
-			}
-			return out, nil
-		},
+		"x-xor":                  xor,
+		"x-xor-with-a-long-name": xor,
 		"x-flate": func(stored []byte, _ uint64) ([]byte, error) {
 			return io.ReadAll(flate.NewReader(bytes.NewReader(stored)))
 		},
